@@ -14,6 +14,7 @@ type GenOpts struct {
 	NoRepOpt  bool  // never put zigzag / fixed on a repeated field
 	StringKey bool  // maps are map<string, V> only
 	BigNums   []int // extra numbers offered above 65535 (default 65536, 70000, 1<<29-1)
+	Unexp     bool  // also generate messages with unexported Go fields between the exported ones (Message.Pad)
 	Impl      bool  // also generate message slots of the self-encoding types PMsg / CMsg
 	MidNums   []int // extra "interesting" numbers offered (on top of the 15/16, 2047/2048, 65535 boundaries)
 }
@@ -25,6 +26,9 @@ type GenStats struct {
 	RepOpt     int // zigzag/fixed options dropped from repeated fields
 	ImplSlots  int // message slots typed PMsg / CMsg
 }
+
+// ImplKinds are the values of Field.Impl.
+var ImplKinds = []string{"pm", "cm", "pmpm", "cmpm"}
 
 var scalarKinds = []Kind{KBool, KInt, KInt32, KInt64, KUint, KUint32, KUint64, KFloat32, KFloat64, KString, KBytes}
 var keyKinds = []Kind{KString, KString, KInt, KInt32, KInt64, KUint, KUint32, KUint64, KBool}
@@ -122,6 +126,20 @@ func GenSchema(t *rapid.T, opts GenOpts) (Schema, GenStats) {
 		if mi == 0 && nf == 0 && rapid.IntRange(0, 3).Draw(t, "nonempty-root") != 0 {
 			nf = rapid.IntRange(1, o.MaxFields).Draw(t, "nfields-root")
 		}
+		if o.Unexp && rapid.IntRange(0, 3).Draw(t, "unexported?") == 0 {
+			// unexported fields at the start / in the middle / at the end
+			m.Pad = make([]int, nf+1)
+			any := false
+			for j := range m.Pad {
+				if rapid.IntRange(0, 2).Draw(t, "padhere") == 0 {
+					m.Pad[j] = rapid.IntRange(1, 2).Draw(t, "npad")
+					any = true
+				}
+			}
+			if !any {
+				m.Pad[rapid.IntRange(0, nf).Draw(t, "padpos")] = 1
+			}
+		}
 		used := map[int]bool{}
 		m.Fields = make([]Field, nf)
 		// non-leaf messages usually nest: one field is forced to be a message
@@ -159,7 +177,7 @@ func GenSchema(t *rapid.T, opts GenOpts) (Schema, GenStats) {
 				f.K = KMsg
 				if i != force && useImpl() {
 					f.Msg = implIdx
-					f.Impl = rapid.SampledFrom([]string{"pm", "cm"}).Draw(t, "implkind")
+					f.Impl = rapid.SampledFrom(ImplKinds).Draw(t, "implkind")
 					st.ImplSlots++
 				} else {
 					f.Msg = mi + 1 // bias towards deep chains
@@ -182,7 +200,7 @@ func GenSchema(t *rapid.T, opts GenOpts) (Schema, GenStats) {
 					f.Val = KMsg
 					if useImpl() {
 						f.Msg = implIdx
-						f.Impl = rapid.SampledFrom([]string{"pm", "cm"}).Draw(t, "implkind")
+						f.Impl = rapid.SampledFrom(ImplKinds).Draw(t, "implkind")
 						st.ImplSlots++
 					} else {
 						f.Msg = rapid.IntRange(mi+1, nm-1).Draw(t, "msgref")
